@@ -191,6 +191,26 @@ func runC03(c *Ctx) error {
 			w.Add(term, desc, fmt.Sprintf("struct:empty-nonnil:%T", v))
 			w.Count("entry.struct")
 		}
+		// ... and because it is not the zero value, every OTHER rule is evaluated on it: a size rule an empty slice
+		// violates fires (struct field and single variable); a nil slice of the same type is skipped
+		for _, v := range []interface{}{[]int{}, []string{}, []float64{}} {
+			for _, rule := range []string{"ge=1", "eq=2", "to=1~3", "gt=0"} {
+				m := mark()
+				st := reflect.StructOf([]reflect.StructField{{Name: "F", Type: reflect.TypeOf(v), Tag: reflect.StructTag(`valid:"` + rule + `|` + m + `"`)}})
+				sv := reflect.New(st).Elem()
+				sv.Field(0).Set(reflect.ValueOf(v))
+				call := &walkCall{Entry: "struct", Src: sv.Addr().Interface()}
+				term, desc := call.caseTerm([]string{"SExpect true " + galExps([]expE{{"C", "F", m}}), "SNoPanic"})
+				w.Add(term, desc, fmt.Sprintf("struct:empty-nonnil-rule:%T:%s", v, rule))
+				call2 := &walkCall{Entry: "var", VarRules: []string{rule + "|" + m}, Src: v}
+				term2, desc2 := call2.caseTerm([]string{"SExpect true " + galExps([]expE{{"C", "", m}}), "SNoPanic"})
+				w.Add(term2, desc2, fmt.Sprintf("var:empty-nonnil-rule:%T:%s", v, rule))
+				nilv := reflect.New(st).Elem() // the zero value: a nil slice
+				call3 := &walkCall{Entry: "struct", Src: nilv.Addr().Interface()}
+				term3, desc3 := call3.caseTerm([]string{"SNil", "SNoPanic"})
+				w.Add(term3, desc3, fmt.Sprintf("struct:nil-slice-rule:%T:%s", v, rule))
+			}
+		}
 	}
 	// a per-call rule set adds required to a field whose tag carries value rules only: the field is zero, required fires
 	for _, ty := range types {
